@@ -120,7 +120,7 @@ fn attempt(c: &Case, env: &Env) -> (Result<Result<bool, &'static str>, String>, 
             };
             match made {
                 Ok(mut conn) => {
-                    let b = conn.with_timeout(Duration::from_secs(2)).simple_bind("cn=probe", "pw");
+                    let b = conn.with_timeout(Duration::from_secs(8)).simple_bind("cn=probe", "pw");
                     Ok(b.map(|r| r.rc == 0).unwrap_or(false))
                 }
                 Err(e) => Err(err_kind(&e)),
@@ -139,7 +139,7 @@ fn attempt(c: &Case, env: &Env) -> (Result<Result<bool, &'static str>, String>, 
                         tokio::spawn(async move {
                             let _ = conn.drive().await;
                         });
-                        let b = ldap.with_timeout(Duration::from_secs(2)).simple_bind("cn=probe", "pw").await;
+                        let b = ldap.with_timeout(Duration::from_secs(8)).simple_bind("cn=probe", "pw").await;
                         Ok(b.map(|r| r.rc == 0).unwrap_or(false))
                     }
                     Err(e) => Err(err_kind(&e)),
@@ -155,11 +155,11 @@ fn judge(rep: &Reporter, c: &Case, env: &Env) {
     let c2 = c.clone();
     let env2 = Env { contacts: env.contacts.clone(), open_port: env.open_port, closed_port: env.closed_port, silent_port: env.silent_port, fence: None };
     let replay = json!({"engine":"c18","case":format!("{:?}", c)});
-    let out = with_deadline(Duration::from_secs(6), move || attempt(&c2, &env2));
+    let out = with_deadline(Duration::from_secs(15), move || attempt(&c2, &env2));
     let (r, secs) = match out {
         Some(x) => x,
         None => {
-            rep.violation(&format!("setup:hangs:{}", want_kind(&c.want)), &format!("{:?}: connection setup did not return within 6 s", c), replay);
+            rep.violation(&format!("setup:hangs:{}", want_kind(&c.want)), &format!("{:?}: connection setup did not return within 15 s", c), replay);
             return;
         }
     };
@@ -240,13 +240,13 @@ fn judge(rep: &Reporter, c: &Case, env: &Env) {
             }
         }
         Want::PeerHangsUp(l) => {
-            if got.is_ok() || got == Err("Timeout") || !new.iter().all(|x| x == l) || new.is_empty() || secs > 5.0 {
+            if got.is_ok() || got == Err("Timeout") || !new.iter().all(|x| x == l) || new.is_empty() || secs > 10.0 {
                 bad(format!("expected {} to be contacted and the establishment to fail by itself (not by the timeout)", l));
             }
         }
         Want::Timeout => {
             let t = c.timeout_ms.unwrap() as f64 / 1000.0;
-            if got != Err("Timeout") || secs < t * 0.9 || secs > t + 4.0 {
+            if got != Err("Timeout") || secs < t * 0.9 || secs > t + 8.0 {
                 bad(format!("expected Timeout after about {:.1}s", t));
             }
         }
